@@ -29,6 +29,8 @@ def to_typespec(h):
             fields.append([f["n"], to_typespec(t["h"])])
         elif t["k"] == "ref":
             fields.append([f["n"], {"k": "ref", "to": to_typespec(t["h"])}])
+        elif t["k"] == "refarr":
+            fields.append([f["n"], {"k": "ref", "to": t["arr"]}])
         else:
             fields.append([f["n"], t])
     return {"k": "struct", "name": h["name"] + "Data", "fields": fields}
@@ -106,6 +108,10 @@ def materialise(h, module=None, registry=None, base=None):
             nd = mat.materialise(t, module=module)
             ftype = nd.cls
             kidnodes.append(nd)
+        elif t["k"] == "refarr":
+            an = mat.materialise(t["arr"], module=module)
+            ftype = xo.Ref[an.cls]
+            kidnodes.append(mat.Node({"k": "ref", "to": t["arr"]}, ftype, [an]))
         elif t["k"] == "hybrid":
             hk = materialise(t["h"], module, registry)
             kids[f["n"]] = hk
@@ -139,7 +145,7 @@ def materialise(h, module=None, registry=None, base=None):
         cls._XoStruct.__qualname__ = cls._XoStruct.__name__
     # field types handed to the metaclass as HybridClass are replaced by their _XoStruct
     for f, kn in zip(h["fields"], kidnodes):
-        if f["t"]["k"] == "ref":
+        if f["t"]["k"] in ("ref", "refarr"):
             kn.cls = getattr(cls._XoStruct, f["n"]).ftype
     node = mat.Node(to_typespec(h), cls._XoStruct, kidnodes)
     hn = HNode(h, cls, node, kids)
@@ -165,6 +171,9 @@ def hwalk(obj, hn):
         elif t["k"] == "array":
             a = np.asarray(v)
             out[f["n"]] = {"shape": [int(x) for x in a.shape], "flat": [mat.pyscalar(t["item"], x) for x in a.reshape(-1)] if a.size else []}
+        elif t["k"] == "refarr":
+            an = [k for g, k in zip(hn.h["fields"], hn.node.kids) if g["n"] == f["n"]][0].kids[0]
+            out[f["n"]] = None if v is None else mat.walk(v, an)
         elif t["k"] == "hybrid":
             out[f["n"]] = hwalk(v, hn.kids[f["n"]])
         else:
@@ -196,6 +205,8 @@ def plain(t, v, kid=None):
         flat = v["flat"]
         dt = mat.NP_DTYPES[t["item"]["t"]]
         return np.array(flat, dtype=dt).reshape(v["shape"]) if flat else np.zeros(v["shape"], dtype=dt)
+    if t["k"] == "refarr":
+        return None if v is None else plain(t["arr"], v)
     if t["k"] == "hybrid":
         return {pyname_inner(kid, k): plain_field(kid, k, x) for k, x in v.items() if not (isinstance(x, dict) and "$absent" in x)}
     if t["k"] == "ref":
@@ -249,7 +260,7 @@ def default_of(f):
         return {"shape": list(t["shape"]), "flat": [z] * n}
     if t["k"] == "hybrid":
         return {g["n"]: default_of(g) for g in t["h"]["fields"]}
-    if t["k"] == "ref":
+    if t["k"] in ("ref", "refarr"):
         return None
     raise ValueError("no default for " + t["k"])
 
@@ -258,7 +269,7 @@ def has_usable_default(f):
     t = f["t"]
     if "default" in f:
         return True
-    if t["k"] == "scalar" or t["k"] == "ref":
+    if t["k"] in ("scalar", "ref", "refarr"):
         return True
     if t["k"] == "array":
         return all(d is not None for d in t["shape"])
@@ -282,6 +293,7 @@ class HCfg:
         self.allow_nd = True
         self.allow_dynamic = True
         self.allow_orders = True
+        self.allow_refarr = False  # Ref to an array of scalars (exercised by C18 only)
         self.__dict__.update(kw)
 
 
@@ -301,6 +313,8 @@ def _draw_h(draw, cfg, namer, depth):
             kinds += ["hybrid"] * 2
             if cfg.allow_refs:
                 kinds += ["ref"] * 2
+        if cfg.allow_refarr:
+            kinds += ["refarr"]
         k = draw(st.sampled_from(kinds))
         f = {"n": f"f{i}"}
         if k == "scalar":
@@ -333,6 +347,8 @@ def _draw_h(draw, cfg, namer, depth):
             elif cfg.allow_defaults and all(d is not None for d in shape) and nd == 1 and draw(st.integers(0, 3)) == 0:
                 n = math.prod(shape)
                 f["default"] = {"shape": list(shape), "flat": [draw(tg.scalar_values(t["item"]["t"]).filter(lambda x: x == x)) for _ in range(n)]}
+        elif k == "refarr":
+            f["t"] = {"k": "refarr", "arr": {"k": "array", "name": None, "item": {"k": "scalar", "t": draw(st.sampled_from(tg.SCALARS))}, "shape": [None], "order": [0]}}
         elif k == "hybrid":
             f["t"] = {"k": "hybrid", "h": _draw_h(draw, cfg, namer, depth + 1)}
         else:
@@ -367,6 +383,8 @@ def hvalues(draw, h, absent_ok=True):
             out[f["n"]] = hvalues(draw, t["h"], absent_ok)
         elif t["k"] == "ref":
             out[f["n"]] = None if draw(st.integers(0, 3)) == 0 else hvalues(draw, t["h"], absent_ok)
+        elif t["k"] == "refarr":
+            out[f["n"]] = None if draw(st.integers(0, 2)) == 0 else tg._draw_value(draw, t["arr"], cfg)
         else:
             out[f["n"]] = tg._draw_value(draw, t, cfg)
     return out
